@@ -16,6 +16,7 @@ Proof.
   - f_equal; auto.
   - f_equal; auto.
   - apply andb_prop in H as [H1 H2]. f_equal; auto.
+  - apply andb_prop in H as [H1 H2]. f_equal; auto.
 Qed.
 
 Lemma ty_eqb_spec a b : ty_eqb a b = true <-> a = b.
@@ -48,6 +49,7 @@ Section PvalInd.
   Hypothesis HList : forall t l, Forall P l -> P (PList t l).
   Hypothesis HSet : forall t l, Forall P l -> P (PSet t l).
   Hypothesis HMap : forall kt vt l, Forall P l -> P (PMap kt vt l).
+  Hypothesis HLam : forall a b body, P (PLam a b body).
 
   Fixpoint pval_ind' (v : pval) : P v :=
     match v with
@@ -84,6 +86,7 @@ Section PvalInd.
                          | [] => Forall_nil P
                          | x :: r => Forall_cons x (pval_ind' x) (go r)
                          end) l)
+    | PLam a b body => HLam a b body
     end.
 End PvalInd.
 
@@ -144,7 +147,7 @@ Definition typed (v : pval) (t : ty) : Prop := pv_typedb v t = true.
 Lemma typed_rt_type v : forall t, typed v t -> rt_type v = t.
 Proof.
   unfold typed.
-  induction v as [z|z|z|z|s|s|s|s|b| |x y IHx IHy|t0|x IHx|x t0 IHx|t0 x IHx|t0 l IHl|t0 l IHl|kt vt l IHl] using pval_ind';
+  induction v as [z|z|z|z|s|s|s|s|b| |x y IHx IHy|t0|x IHx|x t0 IHx|t0 x IHx|t0 l IHl|t0 l IHl|kt vt l IHl|ta tb body] using pval_ind';
     intros [] Ht; simpl in Ht; try discriminate; simpl; try reflexivity.
   - apply andb_prop in Ht as [H1 H2]. f_equal; auto.
   - apply ty_eqb_eq in Ht. congruence.
@@ -155,6 +158,7 @@ Proof.
   - apply andb_prop in Ht as [H1 H2]. apply andb_prop in H1 as [H1 H3]. apply ty_eqb_eq in H1. congruence.
   - apply andb_prop in Ht as [H1 H2]. apply andb_prop in H1 as [H1 H3]. apply andb_prop in H1 as [H1 H4].
     apply ty_eqb_eq in H1. apply ty_eqb_eq in H4. congruence.
+  - apply andb_prop in Ht as [H1 H2]. apply ty_eqb_eq in H1. apply ty_eqb_eq in H2. congruence.
 Qed.
 
 Lemma typed_list_inv t' l a : typed (PList t' l) (TList a) -> t' = a /\ Forall (fun x => typed x a) l.
